@@ -370,7 +370,10 @@ fn check_from_meta(acc: &mut Acc) {
         // naive
         match guard(|| StatementWrapper::from_meta(l.clone(), None, StatementVer::Naive)) {
             Guard::Done(StatementWrapper::Naive(s)) => {
-                let sv: Value = serde_json::from_slice(&stmt_bytes(&StatementWrapper::Naive(s.clone())).unwrap()).unwrap();
+                let Some(sv) = stmt_bytes(&StatementWrapper::Naive(s.clone())).and_then(|b| serde_json::from_slice::<Value>(&b).ok()) else {
+                    acc.violation("canonical-form-not-json", "the canonical form of a statement built from link metadata is not valid JSON", || json!({"kind": "from_meta", "link": n}));
+                    continue;
+                };
                 let same = sv["name"] == lv["name"] && sv["materials"] == lv["materials"] && sv["products"] == lv["products"] && sv["command"] == lv["command"] && sv["byproducts"] == lv["byproducts"] && sv["env"] == lv["environment"];
                 if !same {
                     acc.violation("from-meta-changes-link:naive", "a naive statement built from link metadata does not carry the link's members over unchanged", || json!({"kind": "from_meta", "link": n, "statement": sv, "link_json": lv}));
@@ -386,7 +389,10 @@ fn check_from_meta(acc: &mut Acc) {
         let pv = serde_json::to_value(&pred).unwrap();
         match guard(|| StatementWrapper::from_meta(l.clone(), Some(Box::new(pred.clone()) as Box<dyn PredicateLayout>), StatementVer::V0_1)) {
             Guard::Done(StatementWrapper::V0_1(s)) => {
-                let sv: Value = serde_json::from_slice(&stmt_bytes(&StatementWrapper::V0_1(s.clone())).unwrap()).unwrap();
+                let Some(sv) = stmt_bytes(&StatementWrapper::V0_1(s.clone())).and_then(|b| serde_json::from_slice::<Value>(&b).ok()) else {
+                    acc.violation("canonical-form-not-json", "the canonical form of a statement built from link metadata is not valid JSON", || json!({"kind": "from_meta", "link": n}));
+                    continue;
+                };
                 if sv["subject"] != lv["products"] || sv["predicate"] != pv || sv["predicateType"] != PRED_TYPES[0] {
                     acc.violation("from-meta-changes-link:v01", "a v0.1 statement built from link metadata does not carry products as subject / the predicate unchanged", || json!({"kind": "from_meta", "link": n, "statement": sv}));
                 } else {
